@@ -17,6 +17,7 @@ Results: `ok <flattened list>`; complex values as interleaved re,im.
 import Nitime.Model.CohBase
 import Nitime.Model.C04
 import Nitime.Model.C08Hist
+import Nitime.Lemmas.C08Retarget
 
 namespace Nitime.C08
 open Nitime.Coh Nitime.Coh.CScalar
@@ -236,8 +237,26 @@ def handleReads (args : List String) : Option String := do
     return "ok " ++ " ".intercalate (now ++ atEnd)
   | _ => none
 
+/-- `retarget <skip 0|1> <event> …`, event = `r` (read a getter) | `s:<ref>` (set_input with object <ref>) |
+    `m:<ref>:<version>` (the data of object <ref> replaced in place by version <version>); object `ref` initially holds
+    version `1000·ref`; the analyzer starts on object 0.  Answer: the data version every read answers from. -/
+def handleRetarget (args : List String) : Option String := do
+  match args with
+  | sk :: evs =>
+    let es ← evs.mapM fun e =>
+      match e.splitOn ":" with
+      | ["r"] => some (Retarget.Ev.read : Retarget.Ev Nat)
+      | ["s", r] => r.toNat?.map Retarget.Ev.setInput
+      | ["m", r, v] => do some (Retarget.Ev.mutate (← r.toNat?) (← v.toNat?))
+      | _ => none
+    let out := (Retarget.run (sk == "1") (fun v : Nat => v) (fun r => 1000 * r) ⟨0, none⟩ es).2.2
+    let vs := out.filterMap fun o => o.map toString
+    return "ok " ++ (if vs.isEmpty then "-" else ",".intercalate vs)
+  | _ => none
+
 def handle (args : List String) : String :=
   match args with
+  | "retarget" :: rest => (handleRetarget rest).getD "bad-op"
   | "cache" :: rest => (handleCacheCoh rest).getD "bad-op"
   | "reads" :: rest => (handleReads rest).getD "bad-op"
   | "mtcsd" :: rest => (handleMtCsd rest).getD "bad-op"
